@@ -146,7 +146,9 @@ func verifHarness_C19_renderers() {
 	verifCover("C19 encoding renderer")
 }
 
-var verifAcceptTokens = []string{"application/json", "text/html", "text/plain", "application/xml", "text/xml", "image/png", "", "application/json;q=0.9"}
+// (a quality value, also a zero one, is a parameter like any other: the statement picks by list order)
+var verifAcceptTokens = []string{"application/json", "text/html", "text/plain", "application/xml", "text/xml", "image/png", "", "application/json;q=0.9",
+	"application/json;q=0", "application/xml;Q=0.000", "text/plain; q=0.0"}
 
 // Content negotiation by Accept picks the first supported type listed.
 func verifHarness_C19_auto() {
